@@ -892,3 +892,57 @@ C18_OPTIMAL_SIZE = dict(
     stmt_prims=[(_OPTIMAL_RUN, "optimal_size", "!rp_lift (opt_size (map count_true (scr_plates screen')))", "Z")], globals=["np", "len"],
 )
 ALL += [C18_FIXED_SIZE, C18_OPTIMAL_SIZE]
+
+# PlatePermutationPlateGenerator._generate_plates: plate names are integers (ranks of the names); screen.subset(v).to_screen(),
+# the Screen(...) construction with the new names and a.combine(b) are ANY request-free functions mk_subset / mk_renamed / mk_combine.
+_SCREEN_RENAMED = ("Screen(treatment_names=__s.treatment_names, treatment_doses=__s.treatment_doses, observations=__s.observations, "
+                   "sample_names=__s.sample_names, plate_names=__n, control_treatment_name=__s.control_treatment_name, "
+                   "observation_mask=np.zeros(__s.size, dtype=bool))")
+C18_PLATE_PERMUTATION = dict(
+    _C18, file="src/batchie/retrospective.py", cls="PlatePermutationPlateGenerator", func="_generate_plates", name="src_plate_permutation",
+    pyparams=["self", "screen", "rng"], returns="Scr", overload=True,
+    params=[("Scr", "Type"), ("scr_size", "Scr -> Z"), ("scr_plate_names", "Scr -> list Z"), ("mk_subset", "Scr -> list bool -> result Scr"),
+            ("mk_renamed", "Scr -> list Z -> result Scr"), ("mk_combine", "Scr -> Scr -> result Scr"), ("force", "opt list Z"), ("screen", "Scr")],
+    vars={"selection_vector": "list bool", "to_permute": "Scr", "non_permuted": "opt Scr", "new_plate_names": "list Z", "permuted": "Scr"},
+    prims=[
+        ("self.force_include_plate_names", "force", "opt list Z"),
+        ("~np.isin(__s.plate_names, __f)", "map (fun n__ => negb (memZ n__ {f})) (scr_plate_names {s})", "list bool", {"s": "Scr", "f": "list Z"}),
+        ("np.ones(__s.size, dtype=bool)", "mask_ones (scr_size {s})", "list bool", _SCR),
+        ("np.any(~__v)", "existsb negb {v}", "bool", {"v": "list bool"}),
+        ("__s.subset(~__v).to_screen()", "!rp_lift (mk_subset {s} (map negb {v}))", "Scr", _SV),
+        ("__s.subset(__v).to_screen()", "!rp_lift (mk_subset {s} {v})", "Scr", _SV),
+        ("rng.permutation(__s.plate_names)", "!rp_permutation (scr_plate_names {s})", "list Z", _SCR),
+        (_SCREEN_RENAMED, "!rp_lift (mk_renamed {s} {n})", "Scr", {"s": "Scr", "n": "list Z"}),
+        ("__a.combine(__b)", "!rp_lift (mk_combine {a} {b})", "Scr", {"a": "Scr", "b": "Scr"}),
+    ],
+)
+ALL += [C18_PLATE_PERMUTATION]
+
+# SampleSegregatingPermutationPlateGenerator._generate_plates: scr_sample_ids s = screen.unique_sample_ids, scr_sample_rows s i =
+# np.arange(s.size)[s.sample_ids == i]; a plate is the list of its row numbers; labels are plate numbers (-1 = "");
+# the final Screen(...) is ANY request-free function mk_labelled of the screen and the label vector.
+_SCREEN_LABELLED = ("Screen(treatment_names=__s.treatment_names.copy(), treatment_doses=__s.treatment_doses.copy(), "
+                    "observations=__s.observations.copy(), sample_names=__s.sample_names.copy(), plate_names=__l.astype(str), "
+                    "control_treatment_name=__s.control_treatment_name, observation_mask=__s.observation_mask.copy())")
+C18_SAMPLE_SEGREGATING = dict(
+    _C18, file="src/batchie/retrospective.py", cls="SampleSegregatingPermutationPlateGenerator", func="_generate_plates",
+    name="src_sample_segregating", pyparams=["self", "screen", "rng"], returns="Scr", typed_loop_vars=True,
+    params=[("Scr", "Type"), ("scr_size", "Scr -> Z"), ("scr_sample_ids", "Scr -> list Z"), ("scr_sample_rows", "Scr -> Z -> list Z"),
+            ("mk_labelled", "Scr -> list Z -> result Scr"), ("max_plate_size", "Z"), ("screen", "Scr")],
+    vars={"plate_indices": "list list Z", "sample_id": "Z", "sample_indices": "list Z", "n_plates": "Z", "plates": "list list Z",
+          "plate": "list Z", "plate_names": "list Z", "idx": "Z", "indices": "list Z"},
+    ignore=["logger.info(__a)"],
+    prims=[
+        ("self.max_plate_size", "max_plate_size", "Z"),
+        ("__s.unique_sample_ids", "scr_sample_ids {s}", "list Z", _SCR),
+        ("np.arange(__s.size)[__s.sample_ids == __i]", "scr_sample_rows {s} {i}", "list Z", {"s": "Scr", "i": "Z"}),
+        ("math.ceil(len(__a) / float(__b))", "!rp_lift (ceil_div_float (zlen {a}) {b})", "Z", {"a": "list Z", "b": "Z"}),
+        ("len(__a)", "zlen {a}", "Z", {"a": "list Z"}),
+        ("rng.permutation(__a)", "!rp_permutation {a}", "list Z", {"a": "list Z"}),
+        ("np.array_split(__a, __n)", "!rp_lift (array_split_z {a} {n})", "list list Z", {"a": "list Z", "n": "Z"}),
+        ("np.array([''] * __s.size, dtype=object)", "labels_blank (scr_size {s})", "list Z", _SCR),
+        (_SCREEN_LABELLED, "!rp_lift (mk_labelled {s} {l})", "Scr", {"s": "Scr", "l": "list Z"}),
+    ],
+    assign_effects=[("plate_names[__i] = f'generated_plate_{__k}'", "plate_names'", "!rp_lift (label_set {state} {i} {k})")],
+)
+ALL += [C18_SAMPLE_SEGREGATING]
